@@ -2317,7 +2317,12 @@ impl InferContext {
                     _ => Err(vec![Error::IndexForNonTuple(loc, tup)]),
                 }
             }
-            Expr::RecordLiteral(kvs) => {
+            // `{a = 1, ..}` names the fields it gives like a record literal does; the fields it
+            // leaves out are filled from the callee's defaults where it is applied.
+            // (`{..}` alone stays untyped here and is resolved at the application.)
+            Expr::RecordLiteral(kvs) | Expr::ImcompleteRecord(kvs)
+                if matches!(e.to_expr(), Expr::RecordLiteral(_)) || !kvs.is_empty() =>
+            {
                 let duplicate_keys = kvs
                     .iter()
                     .map(|RecordField { name, .. }| *name)
